@@ -60,6 +60,8 @@ def obligations(tier, ctx):
     for kt in [("resp", "req"), ("notif", "resp", "resp")]:
         obs.append(Ob(name="legacy_pending_" + "_".join(kt), params=[("mode", "int")], pre=["0 <= mode <= 1"], call=f"H.routing_legacy_pending({kt!r}, mode, False)",
                       backend="P", timeout=120, family="(c) a legacy per-request stream is pending for the id: the read stream still gets every message"))
+    from symcheck.runner import mirror
+    obs += mirror(obs, r"^(routing_notmsg_req_d0|routing_trail_d0|notify_refused_notif_resp|legacy_pending_resp_req)$", "F", limit=(2 if tier == "quick" else None))
     return obs
 
 
